@@ -94,6 +94,18 @@ type S struct {
 	// expired[tid]: the deadline of every timed wait of thread tid counts as reached
 	// (virtual time of the sched/time shim; set by the controller between steps)
 	expired map[int]bool
+	// Procs, when > 0, is what the runtime shim's GOMAXPROCS reports while this scheduler
+	// is active (a scheduler-chosen input: code that branches on GOMAXPROCS(0) == 1 is
+	// then driven through that branch deterministically).
+	Procs int
+}
+
+// Procs returns the GOMAXPROCS value chosen for the active scheduler (0 = none chosen).
+func Procs() int {
+	if s := active.Load(); s != nil {
+		return s.Procs
+	}
+	return 0
 }
 
 // SetExpired makes the deadline of the timed waits of thread tid count as reached from
